@@ -622,8 +622,9 @@ bool carquet_reader_can_zero_copy(
 
     /* reader is nonnull per API contract */
 
-    /* Must have mmap enabled */
-    if (!reader->mmap_info || !reader->mmap_info->is_valid) {
+    /* Pages are viewed in place whenever the reader has the file in memory:
+     * memory-mapped, or opened from the caller's buffer */
+    if (!reader->mmap_data || (reader->mmap_info && !reader->mmap_info->is_valid)) {
         return false;
     }
 
